@@ -7,7 +7,7 @@ function from the peer's replies to the uploaded dictionaries.  Correspondence s
      template-fragment policies x firmware majors x scopes; the model is fed THE EXACT REPLY FRAMES
      the driver received (`drv.fakesock.replies`) and must emit the same requests (service, path,
      data: start instances, byte offsets and counts) and produce the same `tags`, `data_types`,
-     `info['programs'|'tasks']` and `tags_json`, compared as whole ordered trees (type classes and
+     `info['programs'|'tasks']` and `tags_json`, compared as whole trees (dictionaries as mappings, lists in order; type classes and
      `_struct_members` described structurally);
  (b) a malformed stream: the recorded frames with one mutation (truncated / flipped / dropped /
      duplicated frame, changed status) are replayed to the real driver and to the model: same
@@ -121,8 +121,8 @@ def canon(v):
         return ("I", v)
     if isinstance(v, str):
         return ("S", v)
-    if isinstance(v, dict):
-        return ("D", [(canon(k), canon(x)) for k, x in v.items()])
+    if isinstance(v, dict):         # key order is not part of the statement: compared as a mapping
+        return ("D", sorted([(canon(k), canon(x)) for k, x in v.items()], key=lambda kv: repr(kv[0])))
     if isinstance(v, list):
         return ("L", _norm_set([canon(x) for x in v]))
     if isinstance(v, tuple):         # _struct_members = ([(instance, offset)...], {bit member: (offset, bit)})
@@ -164,7 +164,7 @@ def parse_py(toks, i=0):
             kk, j = parse_py(toks, j)
             v, j = parse_py(toks, j)
             out.append((kk, v))
-        return ("D", out), j
+        return ("D", sorted(out, key=lambda kv: repr(kv[0]))), j
     raise ValueError(f"bad py token {k!r} at {i}")
 
 
@@ -530,6 +530,22 @@ def replay_driver(rev, frames):
     return d
 
 
+def _non_ascii(x, depth=0):
+    if isinstance(x, str):
+        return any(ord(c) > 127 for c in x)
+    if isinstance(x, dict) and depth < 8:
+        return any(_non_ascii(k, depth + 1) or (k not in ("type_class", "_struct_members") and _non_ascii(v, depth + 1)) for k, v in x.items())
+    if isinstance(x, list) and depth < 8:
+        return any(_non_ascii(v, depth + 1) for v in x)
+    return False
+
+
+def outside_model(d):
+    """the driver met a non-ASCII program, template or member name: bytes.decode(errors="replace") and
+    str.encode() of such names are not modelled (ASSUMPTIONS)"""
+    return _non_ascii(d.info.get("programs", {})) or _non_ascii(d.data_types)
+
+
 def run_replay(R, mp, rev, arg, frames, case, what):
     """the same frames to the real driver and to the model"""
     d = replay_driver(rev, frames)
@@ -554,6 +570,9 @@ def run_replay(R, mp, rev, arg, frames, case, what):
     for f in sock.sent:
         svc, words = f[46], f[47]
         requests.append((svc, bytes(f[48:48 + 2 * words]), bytes(f[48 + 2 * words:])))
+    if outside_model(d):
+        R.count("malformed stream outcome", "outside the model (non-ASCII template / program name)")
+        return kind
     m = model_script(mp, rev, arg, frames, fuel=5000)
     R.corr_checked += 1
     R.count("malformed stream outcome", kind)
@@ -968,7 +987,7 @@ def run(R, escalate=False):
                 run_project(R, tp, tpv, mp, sc, "corpus:" + name, 4, random.Random(1), hist="corpus uploads")
             elif c.get("kind") == "frames":
                 run_replay(R, mp, c["rev"], c["arg"], [bytes.fromhex(x) for x in c["frames"]], {"corpus": name}, "corpus replay")
-        n_projects = 1500 if thorough else 34
+        n_projects = 380 if thorough else 28
         n_variants = 6 if thorough else 5
         for k in range(n_projects):
             seed = rng.randrange(1 << 30)
@@ -976,7 +995,7 @@ def run(R, escalate=False):
             # the fine-grained policies make thousands of requests per upload: mostly small projects in the quick tier
             small = (not thorough and k % 4 != 0) or (thorough and k % 3 == 0)
             sc = S.gen_scenario(prng, n_tags=prng.randint(3, 12)) if small else S.gen_scenario(prng)
-            if prng.random() < 0.25:
+            if prng.random() < 0.35:
                 decorate(prng, sc)
             run_project(R, tp, tpv, mp, sc, f"seed {seed}", n_variants, prng, detail_every=5)
             if k % 2 == 0 and len(recorded) < 40:        # frame scripts of small projects for the malformed stream
@@ -990,7 +1009,7 @@ def run(R, escalate=False):
                     recorded.append((rev, up.frames, seed))
                 up.close()
         # malformed stream
-        n_mut = 6000 if thorough else 260
+        n_mut = 6000 if thorough else 220
         for k in range(n_mut):
             rev, frames, seed = recorded[k % len(recorded)]
             fs, what = mutate_frames(rng, frames)
@@ -1020,6 +1039,33 @@ def decorate(rng, sc):
     """boundary material the plain generator does not produce: a nested structure whose template id
     equals an elementary type code, BOOL tags with bit positions, 3-dimensional structure arrays,
     empty program scopes, long names"""
+    # names that resemble the filtered classes but are ordinary user tags (and must be uploaded)
+    inst = max([g["inst"] for g in sc.tags] + [0])
+    have = {g["name"].lower() for g in sc.tags}
+    progs = sorted({g["prog"] for g in sc.tags if g["prog"] is not None})
+    for nm in rng.sample(["_single", "_", "Programs", "Program", "Tasks", "Task_1", "Routine", "Mapx", "Map", "CxnCount", "a__b", "x_",
+                          "IO", "Cx", "TaskMap", "ProgramCxn"], rng.randint(2, 6)):
+        if nm.lower() in have:
+            continue
+        inst += rng.randint(1, 3)
+        g = {"name": nm, "inst": inst, "prog": rng.choice([None] + progs), "kind": "a", "code": rng.choice([0xC4, 0xC2, 0xCA]),
+             "dims": rng.choice([[], [3]]), "bitpos": 0, "system": False, "access": rng.choice([0, 2]), "attr3": 3, "attr5": 4,
+             "attr6": 1 << 26}
+        sc.tags.append(g)
+        sc.mem[inst] = bytes(sc.tag_size(g))
+    # module I/O tags of every kind (Name:slot:Kind and Name:Kind with Kind I / O / C / S)
+    mods = [t for t in sc.templates if t["tail"] is None and ":" in t["name"]]
+    if mods:
+        for nm in rng.sample(["Local:%d:C" % rng.randint(0, 16), "Local:%d:O" % rng.randint(0, 16), "Drive:S", "Rack7:C", "Enet:I",
+                              "Slot:%d:S" % rng.randint(0, 9)], rng.randint(1, 4)):
+            if nm.lower() in have:
+                continue
+            have.add(nm.lower())
+            inst += rng.randint(1, 3)
+            g = {"name": nm, "inst": inst, "prog": None, "kind": "s", "code": mods[0]["id"], "dims": [], "bitpos": 0, "system": False,
+                 "access": 0, "attr3": 5, "attr5": 6, "attr6": 1 << 26}
+            sc.tags.append(g)
+            sc.mem[inst] = bytes(sc.tag_size(g))
     used = {t["id"] for t in sc.templates}
     for tid in (0x0D3, 0x0C4, 0x0C1):
         if tid not in used and rng.random() < 0.5:
